@@ -48,3 +48,8 @@ PROPS["C05"] = dict(pkg="xmpp", test="TestVf_C05", race=True, race_verdict=True,
     technique="runtime monitor: exactly-once multiset/order oracle over recorded handler invocations + Go race detector",
     text="After a scripted negotiation the peer sends random sequences (quick 160 x <=60, thorough 1200 x <=300 elements) over {message incl. 30 KiB bodies and unknown extensions that wrap nested stanzas, presence, iq of every type with known/unknown payloads, <r/>, <a h/> also when stream management was never enabled}, randomly segmented, to a Client over TCP (ending with a sentinel, a FIN or an RST right after the last complete element), a Component over TCP and a Client over WebSocket (one stanza per message, several per message, one stanza fragmented over frames). A catch-all route records ids while handlers sleep/yield; a gate case makes the first handler wait for the second to start. Oracle: multiset of routed ids == stanzas sent (subset without duplicates after RST), component order == arrival order, number of <a/> >= number of <r/>, process alive; loss is decided when nothing is in flight any more (goroutine-state predicate), not by a timeout. Runs under -race; reports on the receive/route path are violations (queue/send-path reports belong to C08/C10).",
     note=TB, assumptions=["scripted peer and catch-all route recorder in the harness", "loopback TCP / nhooyr websocket server side"])
+PROPS["C09"] = dict(pkg="xmpp", test="TestVf_C09", race=True, race_verdict=False, level="exploration", timeout=(300, 2400), floor=50,
+    technique="runtime monitor: XEP-0198 inbound counter model against the h attributes seen by the scripted peer",
+    text="Stream-managed sessions against a scripted peer that sends random inbound histories (quick 300 x <=40, thorough 6000 x <=200 elements over message, presence, iq, unknown-extension stanzas, <r/> and <a h/>) with <r/> at random positions and a final <r/> that proves consumption; a third of the histories continue over 1-4 further connections: the peer closes (FIN), the harness reconnects with Client.Resume() as a StreamManager would, and the peer reads <resume h previd>. The receive loop is sequential, so the oracle is pure counting: h of the j-th <a/> must equal the number of stanzas sent before the j-th <r/> on the session, and h of <resume/> the total so far.",
+    note=TB + " Race reports are recorded, not verdict-bearing for this property.",
+    assumptions=["scripted peer", "FIN cuts only (everything sent is received before EOF)"])
